@@ -47,6 +47,7 @@ type runExp struct {
 type caseT struct {
 	Cap   int         `json:"cap"`
 	SW    bool        `json:"sw"`
+	Same  bool        `json:"same"`
 	Prog  []interp.Op `json:"prog"`
 	Doc   []string    `json:"doc"`
 	Nev   int         `json:"nev"`
@@ -60,6 +61,7 @@ type report struct {
 	Prog     string      `json:"program"`
 	Doc      string      `json:"document"`
 	Sequence []string    `json:"render_sequence"`
+	Same     bool        `json:"all_renders_to_the_same_writer_value"`
 	Render   int         `json:"failing_render"`
 	Plan     string      `json:"fault_plan"`
 	Got      string      `json:"got_bytes"`
@@ -132,10 +134,13 @@ type outcome struct {
 	flushes []int
 	rs      interp.RenderState
 	events  []interp.Event
+	fw      *interp.FaultWriter
 }
 
 // render performs one Render of the program under a fault plan.
-func render(comp templ.Component, rs *interp.RenderState, plan interp.Plan, sw bool) outcome {
+// reuse: the writer VALUE of the previous render of the sequence (nil = a new one): the same object is rendered
+// to again after it has recovered from its failure and its record has been emptied.
+func render(comp templ.Component, rs *interp.RenderState, plan interp.Plan, sw bool, reuse *interp.FaultWriter) outcome {
 	ctx, cancel := context.WithCancel(context.Background())
 	defer cancel()
 	rs.SW = sw
@@ -144,7 +149,12 @@ func render(comp templ.Component, rs *interp.RenderState, plan interp.Plan, sw b
 		cancel()
 	}
 	renderID++
-	fw := &interp.FaultWriter{ID: renderID, K: plan.W.K, M: plan.W.M}
+	fw := reuse
+	if fw == nil {
+		fw = &interp.FaultWriter{}
+	}
+	fw.ID, fw.K, fw.M = renderID, plan.W.K, plan.W.M
+	fw.Dead, fw.Buf, fw.Flushes, fw.Calls = false, nil, nil, 0
 	rec.Begin(renderID)
 	var err error
 	func() {
@@ -157,7 +167,7 @@ func render(comp templ.Component, rs *interp.RenderState, plan interp.Plan, sw b
 	}()
 	class := interp.Classify(err)
 	rec.End(class)
-	return outcome{sink: string(fw.Buf), err: err, class: class, fired: fw.Dead, flushes: fw.Flushes, rs: *rs, events: rec.Take()}
+	return outcome{sink: string(fw.Buf), err: err, class: class, fired: fw.Dead, flushes: fw.Flushes, rs: *rs, events: rec.Take(), fw: fw}
 }
 
 // referenceDoc is the full document of a program on the real code: a fault-free render through a private
@@ -235,7 +245,7 @@ func eqInts(a, b []int) bool {
 // afterFailure: an earlier render of this sequence failed (attribution of carry-over).
 func check(c *caseT, doc string, modelOK bool, seq []string, idx int, exp runExp, o outcome, afterFailure bool) {
 	want := strings.Join(exp.Sink, "")
-	rep := report{Cap: c.Cap, SW: c.SW, Prog: progString(c.Prog), Doc: doc, Sequence: seq, Render: idx + 1,
+	rep := report{Cap: c.Cap, SW: c.SW, Prog: progString(c.Prog), Doc: doc, Sequence: seq, Same: c.Same, Render: idx + 1,
 		Plan: planString(exp.Plan), Got: o.sink, GotErr: fmt.Sprint(o.err), Want: want, WantErr: exp.Res}
 	fail := func(sig, what, detail string) {
 		rep.Detail = detail
@@ -513,14 +523,36 @@ func cases(args []string) {
 				seq = append(seq, planString(e.Plan))
 			}
 			failedBefore := false
+			// one writer value for the whole sequence: the model's same-writer sequences, and every other chain
+			sameWriter := c.Same || (len(c.Runs) == 1 && i%2 == 0)
+			var prevW *interp.FaultWriter
+			prevBuf := 0
 			for j, e := range exps {
-				o := render(comp, rs, e.Plan, c.SW)
+				var reuse *interp.FaultWriter
+				if sameWriter {
+					reuse = prevW
+				}
+				o := render(comp, rs, e.Plan, c.SW, reuse)
+				prevW = o.fw
+				for _, ev := range o.events {
+					if ev.Ev == "acquire" && ev.W == o.fw.ID {
+						if sameWriter && j > 0 && ev.Buf == prevBuf {
+							stats["same_writer_same_buffer"]++
+							if failedBefore {
+								stats["same_writer_same_buffer_after_failure"]++
+							}
+						}
+						prevBuf = ev.Buf
+					}
+				}
 				if j == len(exps)-1 && len(c.Runs) == 1 {
 					// the closing fault-free render of a chain: flush/pool details are those of the model's
 					// fault-free case; compare the property and the bytes only
 					e.UF, e.Pev = o.flushes, poolEvents(o.events)
 				}
-				check(c, doc, modelOK, seq, j, e, o, failedBefore)
+				cc := *c
+				cc.Same = sameWriter
+				check(&cc, doc, modelOK, seq, j, e, o, failedBefore)
 				if o.err != nil {
 					failedBefore = true
 				}
@@ -542,7 +574,8 @@ func cases(args []string) {
 	}
 	traceOut.Close()
 	vhlib.Summary(map[string]any{"cases": ncases, "programs": len(order), "renders": stats["renders"], "fails": stats["fails"],
-		"fails_by_signature": failsBySig, "drift": stats["drift"], "doc_drift_programs": stats["doc_drift_programs"], "trace_events": traceN, "hook_calls": interp.HooksFired(), "plan_kinds": kinds})
+		"fails_by_signature": failsBySig, "same_writer_same_buffer": stats["same_writer_same_buffer"],
+		"same_writer_same_buffer_after_failure": stats["same_writer_same_buffer_after_failure"], "drift": stats["drift"], "doc_drift_programs": stats["doc_drift_programs"], "trace_events": traceN, "hook_calls": interp.HooksFired(), "plan_kinds": kinds})
 }
 
 // ---------------------------------------------------------------------------------------------
